@@ -1052,12 +1052,24 @@ class ValueList(Value):
     def asMap(self):
         result = ValueMap()
         for entry in self.value:
+            if not entry.isList() or len(entry.value) != 2:
+                raise CklRuntimeError(
+                    ValueString("ERROR"),
+                    "Cannot convert list to map, "
+                    "entries must be [key, value] lists"
+                )
             result.addItem(entry.value[0], entry.value[1])
         return result
 
     def asObject(self):
         result = ValueObject()
         for entry in self.value:
+            if not entry.isList() or len(entry.value) != 2:
+                raise CklRuntimeError(
+                    ValueString("ERROR"),
+                    "Cannot convert list to object, "
+                    "entries must be [key, value] lists"
+                )
             result.addItem(entry.value[0].asString().value, entry.value[1])
         return result
 
